@@ -20,3 +20,10 @@ check(
     "Trusts the reference peak finder / parabola / tail-fit window re-derivation in vf/props/c02.py and vf/ref/stats.py; ties between equal peaks accept any of the tied peaks; float32 output precision tolerances as stated in the evidence assumptions.",
     "DESIGN.md section 5 C02",
 )
+check(
+    "C10",
+    "Hypothesis-generated non-degenerate datasets under metamorphic relations (S vs k*S, S vs direction-relabelled S), stated bounds as validity predicates, and scale_by_hs against reference statistics with bounds placed between and exactly on actual values",
+    "Hundreds (quick) / tens of thousands (thorough) of generated datasets per relation; k spans 12 decades, rotation angles any real incl. negative, >360 and bin multiples; discrete choices (peak bin, peak direction) are compared only where the reference says the choice is well conditioned. Exploration.",
+    "Trusts the reference conditioning analysis (vf/props/c10._conditioning) and vf/ref/stats.py; alpha and gw are deliberately excluded from the invariance claims (see DESIGN.md C10).",
+    "DESIGN.md section 5 C10",
+)
